@@ -436,6 +436,17 @@ func runC09(c *mon.Ctx) {
 			}
 		}
 		spec := &sim.EncSpec{DataAlg: sim.AES128CBC, KeyAlg: ka, To: w.SPEnc}
+		if k%3 == 0 {
+			// a detached EncryptedKey referenced through RetrievalMethod, the reference written in every odd way
+			uris := []string{"#ek", "#_k'1", "#_k[1]", "#'", "#", "", "ek", "#ek' or '1'='1", "#ek\"]", "#//EncryptedKey", "#ek)", "#@Id", "cid:key", "#\u00e9", "#ek\nx", strings.Repeat("#", 300), "#_k[@Id='x']", "#*", "#."}
+			u := uris[(k/3)%len(uris)]
+			spec.Detached, spec.RetrievalURI = true, &u
+			if k%2 == 0 {
+				spec.RetrievalType = sim.S("http://www.w3.org/2001/04/xmlenc#EncryptedKey")
+			}
+			id := strings.TrimPrefix(u, "#")
+			spec.EKId = &id
+		}
 		if adv.text != "" {
 			spec.RecipRaw = &adv.text
 		}
